@@ -1,0 +1,26 @@
+//! Verification hooks, compiled only with the cargo feature `verif`.
+//!
+//! `point(name)` is called at named places inside the store's critical sections.
+//! It does nothing unless a handler has been installed with `set_handler`; a
+//! verification harness installs one to pause, image or kill the process there.
+
+use std::sync::{Arc, RwLock};
+
+/// The type of an installed handler
+pub type Handler = Arc<dyn Fn(&'static str) + Send + Sync>;
+
+static HANDLER: RwLock<Option<Handler>> = RwLock::new(None);
+
+/// Install (or with `None`, remove) the handler invoked at every yield point
+pub fn set_handler(handler: Option<Handler>) {
+    *HANDLER.write().unwrap() = handler;
+}
+
+/// A named yield point
+#[inline]
+pub fn point(name: &'static str) {
+    let handler = HANDLER.read().unwrap().clone();
+    if let Some(h) = handler {
+        h(name)
+    }
+}
